@@ -20,10 +20,48 @@ class C17(Prop):
                    "the gosensors stand-in's fidelity to libsensors' enumeration is not fan2go code and is trusted"]
     streams = [Stream("hwmon", gen_hw, parallel=8)]
 
+    @staticmethod
+    def parse_tree(g):
+        """chips of a hw.tree dump: [(platform, {index: input path})]"""
+        import re
+        chips = []
+        for m in re.finditer(r"\[([^\]]*)\]", g):
+            parts = m.group(1).split(";")
+            if len(parts) < 5:
+                continue
+            temps = {}
+            t = parts[4][len("temps="):] if parts[4].startswith("temps=") else ""
+            if t and t != "-":
+                for e in t.split(","):
+                    k, v = e.split(":", 1)
+                    temps[int(k)] = v
+            chips.append((parts[1], temps))   # [name;platform;path;fans=..;temps=..]
+        return chips
+
     def oracle(self, name, ops, go):
         out = []
         for cops, cgo in cases(ops, go):
+            chips = []
             for i, (op, g) in enumerate(zip(cops, cgo)):
+                if op.startswith("hw.tree"):
+                    chips = self.parse_tree(g)
+                if op.startswith("hw.bindsensor") and g.startswith("ok"):
+                    a = kv(op)
+                    if op.startswith("hw.bindsensors"):
+                        sels = [t.split(":") for t in a.get("sels", "").split(";") if t]
+                        got = kv(g).get("inputs", "").split(",")
+                    else:
+                        sels = [[a.get("platform", ""), a.get("index", "0")]]
+                        got = [kv(g).get("input", "")]
+                    bad = None
+                    for (pat, idx), path in zip(sels, got):
+                        allowed = {tm[int(idx)] for (plat, tm) in chips if pat.lower() in plat.lower() and int(idx) in tm}
+                        if path not in allowed:
+                            bad = f"sensor entry (platform '{pat}', index {idx}) was bound to {path}; devices it names: {sorted(allowed) or 'none'}"
+                            break
+                    if bad:
+                        out.append(viol(bad, cops, cgo, upto=i))
+                        break
                 if g.startswith("panic"):
                     out.append(viol(f"binding crashed instead of failing with an error: {g}", cops, cgo, upto=i))
                     break
